@@ -32,6 +32,26 @@ def _consts_of(t):
     return out
 
 
+def _has_symbol_since(t, watermark):
+    """does the term mention a constant or function created (engine.fresh / fresh_fn: name!N) at or after `watermark`?"""
+    todo, seen = [t], set()
+    while todo:
+        x = todo.pop()
+        if x.get_id() in seen:
+            continue
+        seen.add(x.get_id())
+        if z3.is_app(x) and x.decl().kind() == z3.Z3_OP_UNINTERPRETED:
+            nm = x.decl().name()
+            if "!" in nm:
+                try:
+                    if int(nm.rsplit("!", 1)[1]) >= watermark:
+                        return True
+                except ValueError:
+                    pass
+        todo.extend(x.children())
+    return False
+
+
 class IterDesc:
     """Abstract iteration protocol: length(state) and element(state, k)."""
 
@@ -338,6 +358,8 @@ class LoopMixin:
             self.oblige(st, f"{tag}/init#{k}", self.spec_truth(inv, st.env, st), clause=inv, site=node.lineno)
 
         # 2. discover what the body modifies (dry run), then havoc it
+        from . import engine as _engine
+        watermark = next(_engine._fresh_counter)        # every symbol created from here on belongs to the dry run / the iteration
         mod_keys, allocates = self.dry_run(node, st, desc, idx, is_for)
         for extra in lc.get("modifies", []):
             mod_keys.add(extra)
@@ -385,7 +407,7 @@ class LoopMixin:
                             return True
                 # in general: a term built only from things the loop cannot change (no heap field the loop writes, no local
                 # the loop assigns), e.g. self.db[bucket_id]
-                return not (_consts_of(r) & tainted)
+                return not (_consts_of(r) & tainted) and not _has_symbol_since(r, watermark)
             is_fresh = lambda r: (isinstance(r, str) and r == "fresh") or (z3.is_expr(r) and self.allocated_after(r, st))
             if refs and key not in lc.get("modifies", []) and all(r is not None and (is_stable(r) or is_fresh(r)) for r in refs) \
                     and any(is_fresh(r) for r in refs):
